@@ -316,6 +316,7 @@ def traceReaderTimeout : List Event := [
  .semPdRet 0 0 true,
  .ld 0 .rlx (.waiting 0) 1,
  .ld 0 .rlx .word 21,
+ .ld 0 .acq (.waiting 0) 1,
  .cas 0 .ar .word 21 53 21 true,
  .call 1 .unlock,
  .cas 1 .rel .word 1 0 53 false,
@@ -360,7 +361,7 @@ def traceReaderTimeout : List Event := [
 ]
 example : accepts ⟨false⟩ traceReaderTimeout = true := by decide
 /-- the acceptor rejects the store of the unfixed code -/
-example : accepts ⟨false⟩ (traceReaderTimeout.take 44 ++ [.st 0 .rel .word 436 151]) = false := by decide
+example : accepts ⟨false⟩ (traceReaderTimeout.take 45 ++ [.st 0 .rel .word 436 151]) = false := by decide
 /-- the fresh reader acquires; at the end the mutex is free, nobody is queued — and the word is 148:
     MU_WAITING|MU_CONDITION|MU_ALL_FALSE are left set by the self-removal (harmless: cleared by the
     next unlock_slow; the documented "MU_WAITING ⇔ queue non-empty" only holds in the direction ⇐). -/
@@ -925,17 +926,21 @@ theorem C06_writer_waiting_justified {cfg : Cfg} {s : State} (hr : Reachable cfg
   ⟨(reachable_Inv12 hr).ww hww, (reachable_Inv12 hr).wws hww⟩
 
 /-- While a thread is between the acquiring CAS and the release store of mu_try_acquire_after_timeout_or_cancel
-    MU_WRITER_WAITING is clear, and the `old_word` it will store has neither MU_WRITER_WAITING (masked, 03d0bdc) nor
-    MU_LONG_WAIT: the store cannot leave a stale hint. -/
+    MU_WRITER_WAITING is clear, the `old_word` it will store has MU_WRITER_WAITING masked (03d0bdc), and MU_LONG_WAIT in it
+    only if the bit is set in the word at this moment: the store cannot leave a stale hint.
+    (STATEMENT CHANGED with the repair of F9: before, `old_word` had passed a test that included MU_LONG_WAIT and the third
+    clause read `(…).lw = false`; a thread that has been woken now acquires although MU_LONG_WAIT is set, and stores the
+    bit back — it is still set, nobody can clear it while this thread holds the spinlock and the writer bit.) -/
 theorem C06_timeout_store_clean {cfg : Cfg} {s : State} (hr : Reachable cfg s) (t : Tid) (c : MW) (old : Word) (ok : Bool)
     (hpc : s.pc t = .mtStRel c old ok) :
     s.word.ww = false ∧ (mtRelWord (if ok then some c.l else none) old).ww = false ∧
-      (mtRelWord (if ok then some c.l else none) old).lw = false := by
+      ((mtRelWord (if ok then some c.l else none) old).lw = true → s.word.lw = true) := by
   have h12 := reachable_Inv12 hr
-  have hlw : old.lw = false := by have := h12.ok t; rw [hpc] at this; exact this
   refine ⟨h12.mtw t old (by rw [hpc]; rfl), ?_, ?_⟩
   · unfold mtRelWord; (repeat' split) <;> rfl
-  · unfold mtRelWord; (repeat' split) <;> exact hlw
+  · intro hl
+    refine h12.mtlw t old (by rw [hpc]; rfl) ?_
+    unfold mtRelWord at hl; (repeat' split at hl) <;> exact hl
 
 /-- MU_LONG_WAIT is never stale: while it is set some thread inside nsync_mu_lock_slow_ has its `long_wait` local set
     (it clears the bit when it acquires, mu.c:66), and when the spinlock is free that thread is woken / in flight, or its
@@ -1137,10 +1142,10 @@ example : stateAfter ⟨false⟩ (tracePassedWriter.take 69) (fun s => s.word.ww
     && !(s.pc 0).wwA && !(s.pc 1).wwA && !(s.pc 2).wwA && s.wOwner == none && s.rOwners == [0]) = true := by decide
 /-- MU_WRITER_WAITING set by a timed-out waiter that spins (`traceReaderTimeout`, event 24: 21 → 53): the third kind
     of justification — thread 0 is in the loop of mu_try_acquire_after_timeout_or_cancel. -/
-example : stateAfter ⟨false⟩ (traceReaderTimeout.take 24) (fun s => s.word.ww && (s.pc 0).wwA && (s.pc 0).timedOut
+example : stateAfter ⟨false⟩ (traceReaderTimeout.take 25) (fun s => s.word.ww && (s.pc 0).wwA && (s.pc 0).timedOut
     && s.wOwner == some 1) = true := by decide
 /-- … and the release store of that path leaves the bit clear (event 45: 151 → 404). -/
-example : stateAfter ⟨false⟩ (traceReaderTimeout.take 45) (fun s => !s.word.ww && !s.word.lw) = true := by decide
+example : stateAfter ⟨false⟩ (traceReaderTimeout.take 46) (fun s => !s.word.ww && !s.word.lw) = true := by decide
 
 /-! ## defect F8 of the pinned code (repaired in /repo by commit ace4c21; the model follows the repaired code)
 
